@@ -31,6 +31,19 @@ class TransactionBackend(Backend):
         super().__init__()
         self._id = backend._id
 
+    def is_disable(self, *cmds) -> bool:
+        return self._backend.is_disable(*cmds)
+
+    @property
+    def is_full_disable(self) -> bool:
+        return self._backend.is_full_disable
+
+    def disable(self, *cmds) -> None:
+        self._backend.disable(*cmds)
+
+    def enable(self, *cmds) -> None:
+        self._backend.enable(*cmds)
+
     def _key_is_delete(self, key: Key) -> bool:
         if key in self._to_delete:
             return True
